@@ -1,7 +1,7 @@
-(* C11 driver.  case line: `src=<hex|-> pos=<n> awc=<0|1> pe=<0|1> iw=<0|1> bad=<n,n,..|-> fx=<8 digits hdr tgt prefix dangling iw
-   esc-table decl-blanks trim-blank>` (a shorter fx is padded with 0 = that repair not applied)
-   or `un=<hex|-> pe=<0|1> fx=<0|1> kw=<0|1> et=<0|1>` (unescape alone; kw = white-space repair applied AND ignore_whitespace on;
-   et = escape-table repair, default 1)
+(* C11 driver.  case line: `src=<hex|-> pos=<n> awc=<0|1> pe=<0|1> iw=<0|1> bad=<n,n,..|-> fx=<9 digits hdr tgt prefix dangling iw
+   esc-table decl-blanks trim-blank esc-octal>` (a shorter fx is padded with 0 = that repair not applied)
+   or `un=<hex|-> pe=<0|1> fx=<0|1> kw=<0|1> et=<0|1> eo=<0|1>` (unescape alone; kw = white-space repair applied AND ignore_whitespace on;
+   et = escape-table repair, default 1; eo = only octal digits are kept escapes, default 1)
    or `tr=<hex|-> tb=<0|1>` (trim_end_unescaped alone; tb = trims blanks only (repaired), default 1).
    result: the OK / ERRS section of harness/src/bin/c11.rs, or PANIC / FUEL. *)
 let bytes_of_hex (h : string) : int list =
@@ -45,7 +45,7 @@ let () =
   iter_lines (fun line ->
     let d = kv line in
     if List.mem_assoc "un" d then
-      show_out (unescape_sel (get d "et" "1" = "1") (get d "fx" "0" = "1") (get d "kw" "0" = "1") (text_of_hex (get d "un" "-")) (get d "pe" "0" = "1"))
+      show_out (unescape_sel (get d "et" "1" = "1") (get d "eo" "1" = "1") (get d "fx" "0" = "1") (get d "kw" "0" = "1") (text_of_hex (get d "un" "-")) (get d "pe" "0" = "1"))
     else if List.mem_assoc "tr" d then
       show_out (trim_end_unescaped_gen (trim_pred (get d "tb" "1" = "1")) (text_of_hex (get d "tr" "-")))
     else
@@ -53,11 +53,12 @@ let () =
     let pos = nat_of_int (int_of_string (get d "pos" "0")) in
     let bad = let b = get d "bad" "-" in
       if b = "-" then [] else List.map (fun x -> nat_of_int (int_of_string x)) (String.split_on_char ',' b) in
-    let f = get d "fx" "00000000" in
-    let f = if String.length f < 8 then f ^ String.make (8 - String.length f) '0' else f in
+    let f = get d "fx" "000000000" in
+    let f = if String.length f < 9 then f ^ String.make (9 - String.length f) '0' else f in
     let fx = { fix_header = f.[0] = '1'; fix_target_span = f.[1] = '1';
                fix_prefix_unescape = f.[2] = '1'; fix_dangling = f.[3] = '1'; fix_iw = f.[4] = '1';
-               fix_esc_table = f.[5] = '1'; fix_decl_blanks = f.[6] = '1'; fix_trim_blank = f.[7] = '1' } in
+               fix_esc_table = f.[5] = '1'; fix_decl_blanks = f.[6] = '1'; fix_trim_blank = f.[7] = '1';
+               fix_esc_octal = f.[8] = '1' } in
     match lex_from_str fx src pos (get d "awc" "0" = "1") (get d "pe" "0" = "1") (get d "iw" "0" = "1") bad with
     | Panic -> "PANIC" | OutOfFuel -> "FUEL"
     | Done (PErrs errs) ->
